@@ -2,6 +2,7 @@
 # must report a violation.  expect=0: a benign edit (property still holds): the check must stay quiet.
 TL = "src/cpp/thread-link.cpp"
 UH = "src/cpp/undo-history.cpp"
+AU = "src/cpp/automations.cpp"
 MUTANTS = [
  dict(id="C06", name="publish_before_copy", edits=[(TL,
   """    const off_t  next_write = (ring->write + len)%ring->size;
@@ -71,4 +72,34 @@ MUTANTS = [
  dict(id="C15", name="rewind_order_oldest_first", edits=[(UH, "        while(distance++)\n            impl->rewind(impl->history[--impl->history_pos].second);",
       "        { long n = -distance; long base = impl->history_pos - n; for(long q=0;q<n;++q) impl->rewind(impl->history[base+q].second); impl->history_pos = base; }")]),
  dict(id="C15", name="merge_only_newest_entry", edits=[(UH, "    for(int i=history_pos-1; i>=0; --i) {", "    for(int i=history_pos-1; i>=history_pos-1; --i) {")]),
+
+ # ---- C19 automations
+ dict(id="C19", name="clear_idle_slot_shifts_queue", edits=[(AU, "    if(s.learning > 0) {", "    if(s.learning) {")]),
+ dict(id="C19", name="learn_served_lifo", edits=[(AU, "        if(slots[i].learning == 1) {", "        if(slots[i].learning == learn_queue_len && learn_queue_len > 0) {")]),
+ dict(id="C19", name="no_renumber_after_serve", edits=[(AU, "                if(slots[j].learning > 1)\n                    slots[j].learning -= 1;", "                ;")]),
+ dict(id="C19", name="float_upper_clamp_removed", edits=[(AU, """    } else if(type == 'f') {
+        float v = value*(b-a) + a;
+        if(v > mx)
+            v = mx;
+        else if(v < mn)""", """    } else if(type == 'f') {
+        float v = value*(b-a) + a;
+        if(v < mn)""")]),
+ dict(id="C19", name="int_lower_clamp_to_max", edits=[(AU, """        else if(v < mn)
+            v = mn;
+
+        rtosc_message(msg, 256, path, "i", (int)roundf(v));""", """        else if(v < mn)
+            v = mx;
+
+        rtosc_message(msg, 256, path, "i", (int)roundf(v));""")]),
+ dict(id="C19", name="int_truncates", edits=[(AU, '(int)roundf(v));', '(int)v);')]),
+ dict(id="C19", name="log_scale_not_exponentiated", edits=[(AU, "        if(au.map.control_scale == 1)\n            v = expf(v);", "        ;")]),
+ dict(id="C19", name="channel_ignored", edits=[(AU, "        par_id = channel*128 + type;", "        par_id = type;")]),
+ dict(id="C19", name="offset_sign_flipped_benign", expect=0, edits=[(AU, "    float center = (mn+mx)*(0.5 + au.map.offset/100.0);", "    float center = (mn+mx)*(0.5 - au.map.offset/100.0);")]),
+ dict(id="C19", name="clear_keeps_cc_binding", edits=[(AU, "    s.learning = -1;\n    s.midi_cc  = -1;", "    s.learning = -1;")]),
+ dict(id="C19", name="waiting_slot_requeued", edits=[(AU, "    if(start_midi_learn && slots[slot].learning == -1 && slots[slot].midi_cc == -1)", "    if(start_midi_learn && slots[slot].midi_cc == -1)")]),
+ dict(id="C19", name="incomplete_nrpn_learns", edits=[(AU, "        } else //incomplete NRPN sequence: nothing to drive or learn yet\n            return 0;", "        }")]),
+ dict(id="C19", name="nrpn_state_uninitialised", edits=[(AU, "    NRPN.parhi = NRPN.parlo = NRPN.valhi = NRPN.vallo = -1;\n", "")]),
+ dict(id="C19", name="gain_range_halved", edits=[(AU, "    float range  = (mx-mn)*au.map.gain/100.0;", "    float range  = (mx-mn)*au.map.gain/200.0;")]),
+ dict(id="C19", name="toggle_sent_as_int", edits=[(AU, 'rtosc_message(msg, 256, path, v == 1.0 ? "T" : "F");', 'rtosc_message(msg, 256, path, "i", v == 1.0 ? 1 : 0);')]),
+ dict(id="C19", name="second_sub_not_driven", edits=[(AU, "    for(int i=0; i<per_slot; ++i)\n        setSlotSub(slot_id, i, value);", "    for(int i=0; i<1; ++i)\n        setSlotSub(slot_id, i, value);")]),
 ]
